@@ -28,6 +28,8 @@ Model driver for C03. Line protocol (single spaces between fields; see harness/p
                                 the caller overwrites its buffer
      o<path>                    (new manifest form) kc.CollectionFileReader(manifest, path): next handle
      r<h>:<len> | k<h>:<off>    File.Read / File.Seek on handle h
+     k(s|c|e)<h>:<int>          File.Seek(int, SeekStart | SeekCurrent | SeekEnd) on handle h, the offset is signed;
+                                result k:<pos>, or k:neg:<pos> for ErrNegativeOffset (pos = the unchanged offset)
   every op result of a session is followed by '@' and the number of HTTP requests made so far
   schedule  := ('s'<b> | 'f'<b>) (',' …)*   start a reader of block b (ReadAt whole block) /
                release the blocked request of the fetch of block b; afterwards everything is released
@@ -239,6 +241,23 @@ def opFileSeek (st : Sess) (h off : Nat) : Option (String × Sess) :=
   | some (some (segs, ptr)) => some (s!"k:{off}", setPtr st h segs (fileSeek ptr off))
   | _ => some ("k:noopen", st)
 
+/-- File.Seek(off, whence) on handle h -/
+def opFileSeekW (st : Sess) (h : Nat) (w : Whence) (off : Int) : Option (String × Sess) :=
+  match st.handles[h]? with
+  | some (some (segs, ptr)) =>
+    let r := fileSeekW (fileSize segs) ptr w off
+    match r.2 with
+    | some pos => some (s!"k:{pos}", setPtr st h segs r.1)
+    | none => some (s!"k:neg:{r.1.off}", setPtr st h segs r.1)
+  | _ => some ("k:noopen", st)
+
+def parseSeekW (a : String) : Option (Nat × Int) :=
+  match a.splitOn ":" with
+  | [h, d] => match parseNat? h, (if d.isEmpty then none else d.toInt?) with
+    | some x, some y => some (x, y)
+    | _, _ => none
+  | _ => none
+
 def opOpen (st : Sess) (path : String) : Option (String × Sess) :=
   match st.files with
   | none => some ("o:noopen", { st with handles := st.handles.push none })
@@ -311,6 +330,11 @@ def runOp (st : Sess) (op : String) : Option (String × Sess) :=
     else match parseNat? a with
       | some n => opFileRead st 0 n
       | none => none
+  else if op.startsWith "ks" || op.startsWith "kc" || op.startsWith "ke" then
+    let w : Whence := if op.startsWith "ks" then .start else if op.startsWith "kc" then .cur else .fromEnd
+    match parseSeekW (op.drop 2).toString with
+    | some (h, d) => opFileSeekW st h w d
+    | none => none
   else if op.startsWith "k" then
     let a := (op.drop 1).toString
     if a.contains ':' then
